@@ -77,6 +77,7 @@ SPECIAL_CHILDREN = [
     ('ComplexInf', '1e999j'), ('ComplexZero', '0j'), ('IntSpaceDot', '1 .real'), ('CompareNested', '(a<b)<c'),
     ('IfExpNested', 'a if b else c if d else e'), ('LambdaIf', 'lambda:a if b else c'), ('TupleNested', '((a,b),c)'),
     ('WalrusBare', '(w:=a)'), ('AwaitCall', 'await a()'), ('SubscriptSlices', 'a[::,1:2]'), ('CallKwOnly', 'a(k=b)'),
+    ('CurlyIfExp', '{1:2} if a else b'), ('SetIfExp', '{a} if b else c'), ('CurlySubIfExp', '{1:2}[1] if a else b'), ('CurlyBoolOp', '{a} and b'),
     ('DictCompIf', '{k:v for k,v in a if v if k}'), ('GenInCall', 'a(x for x in b)'), ('Long', '10L'), ('Oct2', '0777'),
 ]
 
